@@ -14,6 +14,10 @@ NA = {
 PENDING = "check not built yet (implementation in progress); the design is in DESIGN.md section 4"
 
 CHECKS = {
+ "C09": dict(level="other",
+   text="Path-sensitive typestate analyses on every function of src/: (b) each of the ~117 allocation sites is null-tested before any use, the failure arm returns a failure, nothing stays allocated on any failing return and no block is lost by v = blobResize(v,..); (c) in the eight unwrap / secure-messaging-unwrap functions the caller's output is never left written at an authentication-failure return and every success return that released data passed an accepting verifier on that path; (d) every err_t result is tested or returned (three sites frozen with reasons); (a) scalar preconditions asserted by callees are implied by the public caller's argument checks. These are necessary structural conditions of the error contract, decided on all paths; the mapping of header prose to error codes is not decided.",
+   design="4/C09", technique="all-paths typestate / dataflow on the CFG + guard-implies-precondition check",
+   note="Trusted: clang AST, path engine, prototype-level may-write effects (non-const pointer parameter = may write); frozen instances are listed in sa/c09.py with one reason each."),
  "C15": dict(level="other",
    text="All-paths typestate analysis: every one of the ~117 blob creation sites in src/ (blobCreate, blobResize, creator wrappers found by summary) is followed on every control-flow path of its function to blobClose (or to its owner), with use-after-close/double-close/overwrite detection; blobClose itself is proved structurally to wipe the whole page-rounded allocation (size expression matched against blobCreate's) before memFree, memWipe is proved to be a volatile store loop in the AST and in clang's optimised IR, and only mem.c/blob.c may touch the allocator. Structural necessary conditions of the property, decided exactly for the code shape; not a claim about which bytes are secret.",
    design="4/C15", technique="all-paths typestate (disjunctive path engine over the CFG) + who-may-call + structural dominance + IR inspection",
